@@ -6,7 +6,7 @@ import json, os
 CLAIMED = {
  # id: (category, technique, text, note, design_ref)
  "C01": ("exploration", "bounded-exhaustive token/tag sequence enumeration + proptest token soups, mutations and constructive invalid templates against a totality oracle",
-         "Every sequence of <=3 (thorough <=4) lexical tokens and <=4 (thorough <=5) whole tags is parsed under three parser configurations; random soups, character mutations of generated well-formed templates and constructive invalid templates add longer inputs. Oracle: parse returns Ok or Err with a non-empty message, never panics; constructive invalids must be Err.",
+         "Every sequence of <=3 (thorough <=4) lexical tokens and <=4 (thorough <=5) whole tags is parsed under three parser configurations; random token soups, 1-3 character-level mutations of generated well-formed templates, forced depth-32 nesting, and constructive invalid templates (a well-formed template plus one unambiguous break: unknown tag/filter, wrong arity, unclosed or mis-nested block incl. inside comment, out-of-range or malformed literal, unterminated string, stray delimiter). Oracle: parse returns Ok or Err with a non-empty message, never panics; constructive invalids must be Err.",
          "Exploration only: absence of a crashing input is not shown beyond the enumerated bound. Nesting depth <= 32.", "4.1"),
  "C03": ("exploration", "proptest-generated template ASTs printed with random trim markers/blanks, compared with a reference interpreter (rule T); exhaustive single-tag marker x whitespace cube",
          "Differential against an independent reference interpreter of text emission, trim markers, raw and comment over generated templates; exhaustive over the 16 marker combinations x whitespace kinds for single tags.",
@@ -38,6 +38,9 @@ CLAIMED = {
  "C08": ("exploration", "enumerated call-form x partial-behaviour family + proptest caller/partial scenarios (valid, broken, missing, dead paths, dynamic names) against a reference interpreter",
          "Every include/render argument form x 8 partial behaviours x inside/outside a caller loop x caller bindings, dynamic partial names changing per execution of one tag site, missing/broken partials on executed and dead paths; random scenarios with a caller and three partials (acyclic), probes of every name around every call. Oracle: reference interpreter modelling include (shared scope, argument frame, interrupts propagate) and render (arguments only, own assignments may rebind them, counters shared but not readable, interrupts contained).",
          "Reference interpreter trusted; cycle/ifchanged in partials and interrupts at the top level of a render-for partial are not compared.", "4.8"),
+ "C09": ("exploration", "bounded-exhaustive render histories over hand-written stateful template families + proptest histories over generated templates; oracle = first occurrence and fresh-parser differential",
+         "Every history of <=3 render calls over 3 families of 3 stateful templates x 3 data objects sharing one parser with a lazy partial store (cycle, counters, ifchanged, capture failing midway, break/continue, variable range bounds, partials that cycle/assign/break/fail, broken and missing partials); random histories of up to 6 (thorough 10) calls over generated templates. Each call's result must equal its first occurrence and the same call on a freshly built parser; data objects deep-compared.",
+         "Differential against the engine itself on a fresh parser (state leaks show as differences); multi-key object iteration never observed; explosive generated programs are discarded by a cost estimate before running.", "4.9"),
 }
 
 NOT_YET = {
